@@ -19,7 +19,8 @@ ID = 'C12'
 TITLE = 'Printing an unedited document yields text that parses back equal'
 LEVEL = 'exploration'
 TECHNIQUE = ('round-trip oracle per format over Hypothesis-generated documents of the stated domain: load, print with the '
-             'format\'s own formatter, load the printed text, compare canonical values')
+             'format\'s own formatter (fresh Printer, reused Printer, Printer on a real stdout; every dictionary strategy), load the '
+             'printed text, compare canonical values')
 RULE = ("[XML element text also multi-line, padded and blank, with and without children; a third of the cases print a small document of ANOTHER format on the same Printer object first (one Printer used for several documents) and a half render a diff before the round trip.] Cases per format. JSON / JSON5: recursive documents with st.text() over all Unicode scalars (plus escapes, "
         "quotes, separators, newlines), arbitrary-size ints, floats incl. -0.0, subnormals, 1e308, NaN/Infinity, empty "
         "containers, depth <= 6, written with ensure_ascii on and off. CSV: tables of arbitrary text cells incl. quotes, "
